@@ -335,6 +335,8 @@ func runC08(w *World, c *Check) {
 	c.Rule("C08.precedence", "PA-ETYPE-INFO2 > PA-ETYPE-INFO > PA-PW-SALT regardless of order (RFC 4120 §5.2.7.5)", 2)
 	c.Rule("C08.weakkey", "DES3 random-to-key corrects weak keys per 8-byte DES key: fixWeakKey is applied to each stretch56Bits block (the weak-key table holds 8-byte keys), and flips byte 7 with 0xF0 when weak() says so", 4)
 	c.Rule("C08.salt", "the salt defaults to cname.GetSalt(realm) only when none was supplied; only 4-byte s2kparams are decoded", 3)
+	c.Rule("C08.stateless", "a crypto function touches package-level state only as a memo table keyed by all of its parameters themselves (on this tree: no package-level state at all): results do not depend on earlier calls", 6)
+	ruleStateless(w, c, "C08.stateless")
 
 	ruleEtypeTable(w, c, "C08.defaults", map[string]bool{"GetKeyByteSize": true, "GetKeySeedBitLength": true, "GetDefaultStringToKeyParams": true})
 	for tn, name := range map[string]string{"Aes128CtsHmacSha256128": "aes128-cts-hmac-sha256-128", "Aes256CtsHmacSha384192": "aes256-cts-hmac-sha384-192"} {
